@@ -5,4 +5,5 @@ let () =
   | [| _; "ptc" |] -> Ptc_driver.run ()
   | [| _; "seed" |] -> Seed_driver.run ()
   | [| _; "sol" |] -> Sol_driver.run ()
+  | [| _; "grid" |] -> Grid_driver.run ()
   | _ -> prerr_endline "usage: ompl_model <heap|...>"; exit 2
